@@ -304,6 +304,12 @@ def evaluate(pool, lane, job, use_ref_for_session=False, nclosure=2):
         if ge != {'divide': 'ignore', 'over': 'ignore', 'under': 'ignore', 'invalid': 'ignore'}:
             findings.append({'class': 'global-state', 'cid': '-', 'k': -1, 'op': 'numpy.seterr',
                              'message': 'numpy error state after the session is %r (dadi sets all=ignore at import)' % (ge,)})
+    if end is not None and end.get('fpenv') is not None:
+        fe = end['fpenv']
+        if fe[:3] != [True, True, True] or abs(fe[3] - (1.0 + 3e-320 / 1e-310)) > 1e-6:
+            findings.append({'class': 'global-state', 'cid': '-', 'k': -1, 'op': 'fp-environment',
+                             'message': 'after the session, subnormal numbers are flushed to zero in the interpreter thread (probe %r): a call changed the '
+                                        'floating-point environment and did not restore it' % (fe,)})
     # de-duplicate identical findings (session + pristine report the same intrinsic one)
     uniq, seen = [], set()
     for fd in findings:
